@@ -152,7 +152,17 @@ def run(ctx, pid, kinds, n_quick, n_thorough, polite=60, extra_assumptions=()):
                            hanging_histories=hang_unexpl[:50]),
                       "%s: at quiescence (nothing enabled, no command alive) %d histories have unfinished instances / calls: %s never returns or an instance waits for ever"
                       % (pid, len(hang_unexpl), "a shutdown call" if pid == "C03" else "Run()"))
-    if rejected and not unexplained and not hang_unexpl:
+    # ---- C02, timing clause: a back-off wait ended "elapsed" while the harness held its timer at one hour
+    early = [i for i, r in enumerate(results) if r.get("early_backoff")] if pid == "C02" else []
+    if early:
+        i = early[0]
+        r = results[i]
+        ctx.violation(dict(replay_obj(i), early_backoff_instances=[r["inst_names"].get(str(k), k) for k in r["early_backoff"]],
+                           histories=early[:50]),
+                      "C02: on %d histories a process was relaunched although its back-off had not elapsed (the harness gives a held "
+                      "back-off a one-hour timer through the back-off seam; the wait still ended by 'elapsed'); first: scenario kind=%s"
+                      % (len(early), r["scenario"]["kind"]))
+    if rejected and not unexplained and not hang_unexpl and not early:
         i = rejected[0]
         ctx.violation(dict(replay_obj(i), rejected_histories=rejected[:50], correspondence="corr_Sup (Sup.Model.accept on the recorded history)",
                            theorems_resting_on_it=rep["theorems"]),
@@ -180,6 +190,7 @@ def run(ctx, pid, kinds, n_quick, n_thorough, polite=60, extra_assumptions=()):
         "traces_validated_against_impl": len(results) - len(rejected) - len(crashed),
         "histories_rejected_by_model": len(rejected),
         "monitor_failures": len(bad), "monitor_failures_outside_windows": len(unexplained),
+        "early_backoff_histories": len(early),
         "quiescent_histories": sum(1 for r in results if r.get("quiescent")), "hangs_at_quiescence": len(hangs),
         "histories_through_known_windows": win_hist,
         "histories_outside_the_main_theorems_side_conditions": len(outside_thm) if pid in ("C12",) else "not evaluated",
